@@ -27,14 +27,15 @@ Theorem C01_claim_plan_recovered : forall s id i k st,
   s_status st = RUNNING -> s_plan_pending st = true ->
   (forall tk, In tk (s_tasks st) -> t_status tk = NOT_STARTED) ->
   recover_stage s i st = [MStartStage i 0] /\
-  (s_bypass st = false -> should_skip st = false -> s_mutex st = None -> s_choice st = None ->
+  (s_bypass st = false -> should_skip st = false -> milestone_expired s st = false -> y_expired (s_syn st) = false ->
+   s_mutex st = None -> s_choice st = None ->
    exists claimed planned,
      h_commits (start_if_ready s id i k st false) =
        [[OClaims (w_claims s); OPut i claimed]; OPut i planned :: map OAdd (new_before s i st) ++ OMark id :: c_pushes (first_msgs s i st) ++ []]
      /\ s_plan_pending planned = false /\ s_ctx planned = planned_ctx s st /\ s_status planned = RUNNING).
 Proof.
   intros s id i k st E P T. split; [apply recover_plan_pending; assumption|].
-  intros B Sk M C. apply replan_plan_pending; assumption.
+  intros B Sk Ms Ex M C. apply replan_plan_pending; assumption.
 Qed.
 
 (* the claimant of a deferred-choice group, cut between its claim and plan commits, is re-planned after recovery:
@@ -42,7 +43,8 @@ Qed.
    pushes CancelStage for itself *)
 Theorem C01_choice_claimant_replanned : forall s id i k st g,
   s_status st = RUNNING -> s_plan_pending st = true -> s_bypass st = false ->
-  should_skip st = false -> s_mutex st = None -> s_choice st = Some g ->
+  should_skip st = false -> milestone_expired s st = false -> y_expired (s_syn st) = false ->
+  s_mutex st = None -> s_choice st = Some g ->
   claim_lookup (w_claims s) false g = Some i ->
   exists claimed planned,
     h_commits (start_if_ready s id i k st false) =
